@@ -1,4 +1,4 @@
-//! module `poly` (serves C19, polyline part) — `Polyline::points()`.
+//! module `poly` (serves C19, polyline part; C07: `poly.translated` ops only) — `Polyline::points()`.
 //!
 //! Streams (compared with the Lean model `EG.Model.Polyline`):
 //!   poly.points n x y x y ...            -> points of `Polyline::new(&vertices).points()` in order
@@ -74,14 +74,55 @@ impl Module for M {
         "all vertex lists of length 0..=N over a g x g grid (quick: N=4 on 3x3 and N=3 on 4x4; thorough: N=5 on 3x3, N=4 on 4x4), \
          i.e. including repeated vertices and reversals, then seeded random polylines with 0..=6 vertices, coordinates up to \
          +-300, forced repeats / reversals, and translated polylines; non-trivial = at least 3 vertices and at least 2 \
-         distinct ones; distinct = distinct op text"
+         distinct ones; distinct = distinct op text. C07: only poly.translated - all lists of 0..=3 vertices on a 3x3 grid \
+         crossing the origin with 6 non-zero offsets rotating, then seeded random ones (0..=6 vertices within +-300, offsets \
+         within +-300; quick 300, thorough 5000)"
     }
 
     fn generate(&self, pid: &str, tier: Tier, rng: &mut Rng, emit: &mut dyn FnMut(String)) {
+        let quick = tier == Tier::Quick;
+        if pid == "C07" {
+            // C07: `translate(d).points()` = `points()` shifted by d (class C07:poly-translate; the model of
+            // `poly.translated` is compared on the same ops): all lists of 2 / 3 vertices on a 3 x 3 grid crossing the
+            // origin, offsets rotating through non-zero values on both sides of the axes, then seeded random ones
+            const OFFS: [(i64, i64); 6] = [(1, 0), (0, -1), (-7, -9), (5, 3), (-3, 4), (64, -33)];
+            let mut k = 0usize;
+            for n in 0..=3usize {
+                let cells = 9usize;
+                for mut c in 0..cells.pow(n as u32) {
+                    let mut vs = Vec::new();
+                    for _ in 0..n {
+                        let i = (c % cells) as i64;
+                        c /= cells;
+                        vs.push((-1 + (i % 3) * 2, -2 + (i / 3) * 3));
+                    }
+                    k += 1;
+                    let d = OFFS[k % OFFS.len()];
+                    let op = op_of("poly.translated", &vs);
+                    emit(format!("poly.translated {} {} {}", d.0, d.1, op.strip_prefix("poly.translated ").unwrap()));
+                }
+            }
+            for _ in 0..(if quick { 300 } else { 5000 }) {
+                let n = rng.range(0, 6) as usize;
+                let sc = *rng.pick(&[6i64, 40, 300]);
+                let mut vs: Vec<(i64, i64)> = Vec::new();
+                for j in 0..n {
+                    let v = match rng.below(6) {
+                        0 if j >= 1 => vs[j - 1],
+                        1 if j >= 2 => vs[j - 2],
+                        _ => (rng.range(-sc, sc), rng.range(-sc, sc)),
+                    };
+                    vs.push(v);
+                }
+                let d = if rng.chance(1, 4) { *rng.pick(&OFFS) } else { (rng.range(-300, 300), rng.range(-300, 300)) };
+                let op = op_of("poly.translated", &vs);
+                emit(format!("poly.translated {} {} {}", d.0, d.1, op.strip_prefix("poly.translated ").unwrap()));
+            }
+            return;
+        }
         if pid != "C19" {
             return;
         }
-        let quick = tier == Tier::Quick;
         for n in 0..=(if quick { 4 } else { 5 }) {
             all_on_grid(3, n, -1, -1, emit);
         }
@@ -168,6 +209,25 @@ impl Module for M {
                 }
                 ctx.expect(res.is_ok() && drawn == wantb, "C19:poly-draw-on-bounded-target", || {
                     format!("vertices {:?} translate {:?} box {}: drawn {} px, expected {}", vs, d, fmt_rect(&b), drawn.len(), wantb.len())
+                });
+                // the same box on a draw_iter-only target
+                let mut r1b: R1<BinaryColor> = R1::new(b);
+                let res = pl.into_styled(PrimitiveStyle::with_stroke(BinaryColor::On, 1)).draw(&mut r1b);
+                let drawn: BTreeSet<(i32, i32)> = r1b.rec.map.keys().map(|(y, x)| (*x, *y)).collect();
+                ctx.expect(res.is_ok() && drawn == wantb, "C19:poly-draw-on-bounded-target", || {
+                    format!("vertices {:?} translate {:?} draw_iter-only box {}: drawn {} px, expected {}", vs, d, fmt_rect(&b), drawn.len(), wantb.len())
+                });
+            }
+            // degenerate boxes (empty, flat, disjoint) on both kinds of target: nothing is drawn
+            let own = embedded_graphics::primitives::Rectangle::new(Point::new(x0, y0), Size::new(w, h));
+            for (name, b) in degenerate_boxes(&own) {
+                let (mut d1, mut d2): (R1<BinaryColor>, R2<BinaryColor>) = (R1::new(b), R2::new(b));
+                let s1 = pl.into_styled(PrimitiveStyle::with_stroke(BinaryColor::On, 1));
+                let ok = s1.draw(&mut d1).is_ok() && s1.draw(&mut d2).is_ok();
+                let wantb = restrict_map(&r1.rec.map, &b);
+                ctx.count("poly:degenerate-bounded-target");
+                ctx.expect(ok && d1.rec.map == wantb && d2.rec.map == wantb, "C19:poly-draw-on-bounded-target", || {
+                    format!("vertices {:?} translate {:?} {} box {}: drawn {} / {} px, expected {}", vs, d, name, fmt_rect(&b), d1.rec.map.len(), d2.rec.map.len(), wantb.len())
                 });
             }
         }
